@@ -1522,20 +1522,6 @@ class VacancyMediated(object):
             # - biasSvec[sv]
         biasVvec_om2 = -biasSvec
 
-        # 4c. origin state corrections for solute: (corrections for vacancy appear below)
-        # these corrections are due to the null space for the vacancy without solute
-        if len(self.OSindices) > 0:
-            # need to multiply by sqrt(probV) first
-            OSprobV = self.OSfolddown*probVsqrt  # proper null space projection
-            biasSbar = np.dot(OSprobV, biasSvec)
-            om2bar = np.dot(OSprobV, np.dot(om2, OSprobV.T))  # OS x OS
-            etaSbar = np.dot(pinv(om2bar), biasSbar)
-            dDss = np.dot(np.dot(self.vkinetic.outer[:, :, self.OSindices, :, ][:, :, :, self.OSindices],
-                                 etaSbar), biasSbar) / self.N
-            D0ss += dDss
-            D0sv -= dDss
-            biasSvec -= np.dot(om2, np.dot(OSprobV.T, etaSbar))
-
         # 5. compute Green function:
         G0 = np.dot(self.GFexpansion, GF)
         # Note: we first do this *just* with omega1, then ... with omega2, depending on how it behaves
@@ -1583,6 +1569,17 @@ class VacancyMediated(object):
             # update with omega2 ("small" omega2):
             G = np.dot(np.linalg.inv(np.eye(self.vkinetic.Nvstars) + np.dot(G, om2)), G)
             Gfull = G
+        if len(self.OSindices) > 0:
+            # origin states: the vector fields that translate the vacancy uniformly around a fixed solute (one for
+            # each origin state vector basis function) are null vectors of the bare rates, so the bare GF is only
+            # defined up to multiples of their outer products. We take the limit where that multiple goes to
+            # infinity (Woodbury), which removes these fields from the response exactly.
+            OSprobV = self.OSfolddown * probVsqrt  # the null vectors, [NOS, Nvstars]
+            dom = delta_om + om2
+            W = np.dot(np.linalg.inv(np.eye(self.vkinetic.Nvstars) + np.dot(G0, dom)), OSprobV.T)
+            dG = np.dot(W, np.dot(np.linalg.inv(np.dot(OSprobV, np.dot(dom, W))), W.T))
+            G += dG
+            if Gfull is not G: Gfull += dG
 
         # 6. Compute bias contributions to Onsager coefficients
         # 6a. add in the om2 contribution to biasVvec:
@@ -1596,22 +1593,25 @@ class VacancyMediated(object):
         L1sv = np.dot(outer_etaSvec, biasVvec) / self.N
         L1vv = np.dot(outer_etaVvec, biasVvec) / self.N
 
-        # 6c. origin state corrections for vacancy:
+        # 6c. origin state corrections for vacancy: the bare vacancy bias b0 is non-zero on *every* state, but
+        # g0*b0 = eta0 is known (bias correction of the bare vacancy); with domega = delta_om + om2,
+        # b = b0 + db gives G*b = G*db + eta0 - G*domega*eta0, and the bare term eta0*b0 is in L0vv.
         if len(self.OSindices) > 0:
             etaV0 = -np.tensordot(self.OS_VB, etav, axes=((1, 2), (0, 1))) * np.sqrt(self.N)
-            outer_etaV0 = np.dot(self.vkinetic.outer[:, :, self.OSindices, :][:, :, :, self.OSindices], etaV0)
-            dom = delta_om + om2  # sum of the terms
-            # dgd = -dom + np.dot(dom, np.dot(G, dom))  # delta_g = g0*dgd*g0
-            dgd = -dom + np.dot(dom, np.dot(Gfull, dom))  # delta_g = g0*dgd*g0
-            G0db = np.dot(G0, biasVvec)  # G0*db
-            # 2 eta0*db + 2 eta0*dgd*G0*db + eta0*dgd*eta0  (domega = delta_om + om2)
-            # - etaV0*biasV0 (correction due to removing states)
-            L1vv += np.dot(outer_etaV0,
-                           2 * np.dot(self.OSVfolddown, biasVvec)
-                           + 2 * np.dot(self.OSVfolddown, np.dot(dgd, G0db))
-                           + np.dot(np.dot(self.OSVfolddown, np.dot(dgd, self.OSVfolddown.T)), etaV0)
-                           - biasVvec[self.OSindices]
-                           ) / self.N
+            # eta0 as a vector-star field (with the solute present, so weighted with its site probability)
+            eta0 = np.dot(self.OSVfolddown.T, etaV0) * np.sqrt(probSkin[self.vstar2kin])
+            dom_eta0 = np.dot(dom, eta0)
+            # response to the bias that is not in biasVvec: eta0 - G*domega*eta0
+            etaV1 = eta0 - np.dot(Gfull, dom_eta0)
+            outer_etaV1 = np.dot(self.vkinetic.outer, etaV1)
+            # (same index order as L1sv above: vacancy response first, solute bias second)
+            L1sv += np.dot(np.dot(self.vkinetic.outer, biasSvec), etaV1) / self.N
+            dL1vv = (2 * np.dot(outer_etaV1, biasVvec) - np.dot(outer_etaV1, dom_eta0)
+                     - np.dot(np.dot(self.vkinetic.outer[:, :, self.OSindices, :][:, :, :, self.OSindices],
+                                     eta0[self.OSindices]),
+                              biasVvec[self.OSindices])  # (correction due to removing states)
+                     ) / self.N
+            L1vv += 0.5 * (dL1vv + dL1vv.T)  # b.G.b is symmetric; the cross terms above are written one-sided
 
         return L0vv.copy(), D0ss + L1ss, D0sv + L1sv, D0vv + D2vv + L1vv  # copy: L0vv is the cached array
 
